@@ -109,6 +109,21 @@ impl Report {
                                     None => crate::wire::l1(x),
                                 }
                             }
+                            5 => {
+                                // AST: syntax errors compare by class, trees as JSON values
+                                if x.starts_with('E') {
+                                    "E".to_string()
+                                } else {
+                                    x.to_string()
+                                }
+                            }
+                            4 => {
+                                // JSON documents: compare as values
+                                match serde_json::from_str::<serde_json::Value>(x) {
+                                    Ok(v) => v.to_string(),
+                                    Err(_) => x.to_string(),
+                                }
+                            }
                             _ => x.to_string(),
                         }
                     };
